@@ -38,6 +38,43 @@ const c16Body = `
   emit("end", n)
 `
 
+// c16BodyLocals: the control expressions are bare local names; the variables
+// are overwritten during the loop (directly and through an upvalue), which must
+// not disturb it ("the three expressions are evaluated once").
+const c16BodyLocals = `
+  emit("eval", 1) emit("eval", 2) emit("eval", 3)
+  local st, lim, stp = A, B, C
+  local function clobber() lim, stp = nil, {} end
+  local n = 0
+  for v = st, lim, stp do
+    emit(v)
+    n = n + 1
+    if n >= 50 then break end
+    if n == 1 then st = "x" clobber() else st, lim, stp = 0, 0, 0 end
+  end
+  emit("end", n)
+`
+
+// c16BodyKept: bare local names that are not assigned: after the loop they
+// still hold the original values (the loop's conversions are private).
+const c16BodyKept = `
+  emit("eval", 1) emit("eval", 2) emit("eval", 3)
+  local st, lim, stp = A, B, C
+  local function same(x, y) return rawequal(x, y) or (x ~= x and y ~= y) end
+  local n = 0
+  for v = st, lim, stp do
+    emit(v)
+    n = n + 1
+    if n >= 50 then break end
+  end
+  if not (same(st, A) and same(lim, B) and same(stp, C) and math.type(st) == math.type(A) and math.type(lim) == math.type(B) and math.type(stp) == math.type(C)) then
+    emit("the loop changed the variables it took its control values from")
+  end
+  emit("end", n)
+`
+
+var c16Bodies = map[string]string{"args": c16Body, "locals": c16BodyLocals, "kept": c16BodyKept}
+
 func c16Lattice() []Opnd {
 	p53 := int64(1) << 53
 	two63 := math.Ldexp(1, 63)
@@ -54,18 +91,21 @@ func c16Lattice() []Opnd {
 }
 
 type c16Runner struct {
-	s  *harness.Session
-	fn rt.Value
+	s   *harness.Session
+	fns map[string]rt.Value
 }
 
 func (r *c16Runner) session() *harness.Session {
 	if r.s == nil {
 		r.s = harness.NewSession()
-		fn, err := r.s.Load("chunk", "return function(A,B,C)"+c16Body+"end")
-		if err != nil {
-			panic(err)
+		r.fns = map[string]rt.Value{}
+		for route, body := range c16Bodies {
+			fn, err := r.s.Load("chunk", "return function(A,B,C)"+body+"end")
+			if err != nil {
+				panic(err)
+			}
+			r.fns[route] = fn
 		}
-		r.fn = fn
 	}
 	return r.s
 }
@@ -81,7 +121,7 @@ func (r *c16Runner) run(c c16Case) *harness.Trace {
 		}
 		tr = s.Call(fn, 1_000_000, 0)
 	} else {
-		tr = s.Call(r.fn, 1_000_000, 0, c.A.Value(), c.B.Value(), c.C.Value())
+		tr = s.Call(r.fns[c.Route], 1_000_000, 0, c.A.Value(), c.B.Value(), c.C.Value())
 	}
 	if tr.Panic != "" {
 		r.s = nil // poisoned
@@ -381,7 +421,7 @@ func TestC16(t *testing.T) {
 				if !rec.Mine(idx) {
 					continue
 				}
-				for _, route := range []string{"args", "literal"} {
+				for _, route := range []string{"args", "literal", "locals", "kept"} {
 					c := c16Case{a, b, s, route}
 					if msg := evalCase(c); msg != "" && nviol < 5 {
 						nviol++
@@ -420,7 +460,7 @@ func TestC16(t *testing.T) {
 		rapid.SampledFrom([]Opnd{OStr("10"), OStr("-1"), OStr("1e1"), OStr("0x7fffffffffffffff"), ONil, OStr("a"), OTable, OTrue}),
 	)
 	RunRapid(rec, "C16/random", rec.Pick(6000, 60000), 0, func(t *rapid.T) {
-		c := c16Case{genOp.Draw(t, "start"), genOp.Draw(t, "limit"), genOp.Draw(t, "step"), rapid.SampledFrom([]string{"args", "literal"}).Draw(t, "route")}
+		c := c16Case{genOp.Draw(t, "start"), genOp.Draw(t, "limit"), genOp.Draw(t, "step"), rapid.SampledFrom([]string{"args", "literal", "locals", "kept"}).Draw(t, "route")}
 		if msg := evalCase(c); msg != "" {
 			FailCase(t, "triple", c, "%s", msg)
 		}
